@@ -118,8 +118,14 @@ theorem flushSend_pot (c c' : Chan) (ms : List Msg)
         unfold closeSend at hft
         simp only [hs, ne_eq, reduceCtorEq, not_false_eq_true, if_true, Prod.mk.injEq] at hft
         obtain ⟨rfl, rfl⟩ := hft
-        have : linkPot (sendPkt c1 .close) ≤ 1 := by unfold sendPkt; split <;> simp [linkPot, msgWeight]
+        have h6 : linkPot (if c1.sendEofPending = true then sendPkt c1 .eof else []) ≤ 1 := by
+          split
+          · unfold sendPkt; split <;> simp [linkPot, msgWeight]
+          · simp [linkPot]
+        rw [linkPot_append]
         simp only [sStage, hs, hb, bufBytes, List.length_nil]
+        generalize hk : linkPot (sendPkt _ Msg.close) = k
+        have h5 : k ≤ 1 := by rw [← hk]; unfold sendPkt; split <;> simp [linkPot, msgWeight]
         omega
       · simp only [Prod.mk.injEq] at hft
         obtain ⟨rfl, rfl⟩ := hft
